@@ -83,9 +83,9 @@ class C01(Prop):
                    'lone surrogates are fed to the implementation only']
     quick_cases = 500
 
-    MODES = [None, 0, 0, 1, 2, 3, 4, 5, 7, 8, 9, 11, 12, 15, 16, -1, 'x', '7', ' 3 ', 2.0, True, False, '']
-    RESETS = [None, None, True, False, 'true', 'false', 'junk', 1, 0]
-    REPLS = [None, None, '[R]', '<i>r</i>', '', 42, 2.5, True, False, 0]
+    MODES = [None, 0, 0, 1, 2, 3, 4, 5, 7, 8, 9, 11, 12, 15, 16, -1, 'x', '7', ' 3 ', 2.0, True, False, '', '<int 10**5000>', '<int -10**4400>']
+    RESETS = [None, None, True, False, 'true', 'false', 'junk', 1, 0, '<int 10**5000>']
+    REPLS = [None, None, '[R]', '<i>r</i>', '', 42, 2.5, True, False, 0, '<int 10**5000>']
 
     def corpus(self, ctx):
         big = 3000 if ctx.tier == 'quick' else 8000
@@ -724,7 +724,7 @@ class C20(Prop):
             'after every step and compared with a reference state machine written from the property statement; thorough: '
             'all 1- and 2-step sequences over the reduced alphabet are enumerated; non-trivial = distinct sequence with an '
             'illegal value or an in-document option element')
-    SAFE = [None, 0, 1, 5, 15, 16, -1, 'junk', '7', ' 3 ', 2.0, True, False, '', '0x5', '１２']
+    SAFE = [None, 0, 1, 5, 15, 16, -1, 'junk', '7', ' 3 ', 2.0, True, False, '', '0x5', '１２', '<int 10**5000>']
     REPL = [None, None, 'R1', '']
     RESET = [None, None, True, False, 'true', 'false', 'junk', 1, 0, 1.0, 2]
     DOCS = ['', "para", ".safeMode = '3'", ".safeMode = 'x'\n.safeMode = '0'", ".htmlReplacement = 'DOC'",
